@@ -419,12 +419,19 @@ def check_value(ctx, v, utils, stream):
     trivial = isinstance(tree, str)
     reqs = ["iter " + text, "visit " + text, "map m: " + text, "mapold m: " + text]
     # ---- real code
+    it_err = None
     try:
-        it = [atom(x) for x in utils.iter_nested_value(v)]
-        impl_iter = "(" + " ".join(it) + ")"
+        yielded = list(utils.iter_nested_value(v))
     except Exception as e:  # noqa: BLE001
+        yielded = None
+        it_err = e
+    if yielded is None:
         it = None
-        impl_iter = "!" + type(e).__name__
+        impl_iter = "!" + type(it_err).__name__
+    else:
+        # whatever is yielded is printed by the harness's own reader: a yielded container shows up as "(...)"
+        it = [to_sx(x) for x in yielded]
+        impl_iter = "(" + " ".join(it) + ")"
     log = []
 
     def f_inj(x):
@@ -448,7 +455,7 @@ def check_value(ctx, v, utils, stream):
     except Exception as e:  # noqa: BLE001
         rc = None
         rctext = "!" + type(e).__name__
-    return dict(v=v, text=text, tree=tree, trivial=trivial, reqs=reqs, it=it, impl_iter=impl_iter, log=log, r=r, rtext=rtext,
+    return dict(v=v, text=text, tree=tree, trivial=trivial, reqs=reqs, it=it, it_err=it_err, impl_iter=impl_iter, log=log, r=r, rtext=rtext,
                 err=err, rctext=rctext, stream=stream)
 
 
@@ -491,6 +498,18 @@ def judge(ctx, c, replies, stats):
             ctx.mismatch("collapsing map differs from structural map + set/dict collapsing", case=text, model=repr(mc)[:300],
                          impl=c["rctext"][:300])
     # ---- property oracle on the implementation
+    # (a) the iterator yields exactly the leaves of the value (reference: the harness's own recursive flatten `leaves_of`
+    #     over its own reading `to_sx`: nested dict keys - tuples, namedtuples, frozen dataclasses - are expanded)
+    ref = sorted(leaves_of(tree, []))
+    if c["it"] is None:
+        ctx.violation("C19-iterator-raises", "iter_nested_value raised %s: %s" % (type(c["it_err"]).__name__, str(c["it_err"])[:120]),
+                      case=text, expected=ref[:40], actual=c["impl_iter"])
+    elif any(a.startswith("(") for a in c["it"]):
+        ctx.violation("C19-iterator-yields-container", "iter_nested_value yielded a container instead of its leaves", case=text,
+                      expected=ref[:40], actual=sorted(c["it"])[:40])
+    elif sorted(c["it"]) != ref:
+        ctx.violation("C19-iterator-misses-leaves", "iter_nested_value does not yield exactly the leaves of the value", case=text,
+                      expected=ref[:40], actual=sorted(c["it"])[:40])
     if c["err"] is not None:
         ctx.violation(classify_raise(c["err"], text), "map_nested_value raised %s: %s" % (type(c["err"]).__name__, str(c["err"])[:120]),
                       case=text, expected="a rebuilt value", actual=c["rtext"])
@@ -507,9 +526,9 @@ def judge(ctx, c, replies, stats):
     if c["it"] is not None and sorted(c["it"]) != sorted(c["log"]):
         ctx.violation("C19-visited-differs-from-iterator", "map_nested_value applied func to other leaves than iter_nested_value yields",
                       case=text, expected=sorted(c["it"])[:40], actual=sorted(c["log"])[:40])
-    if c["it"] is not None and sorted(c["it"]) != sorted(leaves_of(tree, [])):
-        ctx.violation("C19-iterator-misses-leaves", "iter_nested_value does not yield exactly the leaves of the value", case=text,
-                      expected=sorted(leaves_of(tree, []))[:40], actual=sorted(c["it"])[:40])
+    if sorted(c["log"]) != ref:
+        ctx.violation("C19-map-visits-other-leaves", "map_nested_value did not apply func to exactly the leaves of the value", case=text,
+                      expected=ref[:40], actual=sorted(c["log"])[:40])
     v, r = c["v"], c["r"]
     if is_dc(v) and "__orig_class__" in getattr(v, "__dict__", {}):
         if getattr(r, "__dict__", {}).get("__orig_class__") != v.__dict__["__orig_class__"]:
@@ -568,7 +587,7 @@ def scheduler_stage(ctx, g):
         """returns (value with expressions, expected value)"""
         if depth <= 0 or rng.random() < 0.25:
             n = rng.randrange(50)
-            if hashable or rng.random() < 0.4:
+            if hashable == "noexpr" or rng.random() < 0.4:
                 return n, n
             return inc(n), n + 100
         k = rng.choice(["tuple", "nt"] if hashable else ["list", "tuple", "nt", "dict", "dc", "dc", "set"])
@@ -584,7 +603,8 @@ def scheduler_stage(ctx, g):
             xs = [rng.randrange(50) for _ in range(n)]
             return set(xs), set(xs)
         if k == "dict":
-            ks = [build(min(1, depth - 1), True) for _ in range(n)]
+            # composite keys (tuples / namedtuples) may contain expressions: they must be awaited and replaced too
+            ks = [build(min(1, depth - 1) if rng.random() < 0.5 else 1, True) for _ in range(n)]
             vs = [build(depth - 1) for _ in range(n)]
             return {k_[0]: v_[0] for k_, v_ in zip(ks, vs)}, {k_[1]: v_[1] for k_, v_ in zip(ks, vs)}
         name = rng.choice(["D2", "DN", "DM", "DNF", "D2S", "DPost", "DMFS", "D2F"])
@@ -596,8 +616,14 @@ def scheduler_stage(ctx, g):
     logging.getLogger("redun").setLevel(logging.ERROR)
     sched = Scheduler(config=Config(config_dict={"backend": {"db_uri": "sqlite:///:memory:"}}))
     sched.load()
-    for _ in range(ctx.n(40, 400)):
-        expr, want = build(rng.choice([1, 2, 3]))
+    fixed = [      # expressions inside composite dict keys (tuple, namedtuple, frozen dataclass) and as a bare key
+        ({("k", inc(1)): inc(2)}, {("k", 101): 102}),
+        ({P2(inc(3), 4): [inc(5)]}, {P2(103, 4): [105]}),
+        ({make_dc("D2F", [inc(6), 7]): inc(8)}, {make_dc("D2F", [106, 7]): 108}),
+        ({inc(9): 1, (inc(10), (inc(11),)): 2}, {109: 1, (110, (111,)): 2}),
+    ]
+    todo = fixed + [build(rng.choice([1, 2, 3])) for _ in range(ctx.n(40, 400))]
+    for expr, want in todo:
         text = to_sx_expr(expr)
         try:
             got = sched.run(expr)
